@@ -425,6 +425,53 @@ structure Acc where
   ran : List (Str × List Str)
   fs : FS
 
+/-- `VerifySublayouts` for the counted links of ONE step: evidence that is a layout is verified by
+    `rec` (the recursive call of the pipeline: layout, key map, link directory, step name, effects so
+    far) and replaced by its summary; the first failure stops everything. -/
+def resolveLinks (rec : Md → List (Str × Key) → Dir → Str → Acc → Result) (lay : TVal) (dir : Dir) (stepName : Str) :
+    List (Str × Md) → Acc → Outcome (List (Str × LinkView)) × Acc
+  | [], acc => (.ok [], acc)
+  | (kid, md) :: rest, acc =>
+    match md.payload with
+    | .link _ =>
+      match linkViewOf md.payload with
+      | none => (.err "invalid-metadata", acc)
+      | some lv =>
+        match resolveLinks rec lay dir stepName rest acc with
+        | (.ok ll, a) => (.ok ((kid, lv) :: ll), a)
+        | (.err e, a) => (.err e, a)
+        | (.panic e, a) => (.panic e, a)
+    | .layout _ =>
+      -- the sublayout is verified with the key the layout defines for this functionary (the zero
+      -- key if it defines none) against the links in `<step>.<key id prefix>`
+      let subKeys : List (Str × Key) := [(kid, (lookup kid (layoutKeys lay)).getD Key.zero)]
+      let subDir := dir.sub (stepName ++ '.' :: first8 kid)
+      let res := rec md subKeys subDir stepName acc
+      let acc1 : Acc := { ran := res.ran, fs := res.fs }
+      match res.out with
+      | .err e => (.err e, acc1)
+      | .panic e => (.panic e, acc1)
+      | .ok s =>
+        match resolveLinks rec lay dir stepName rest acc1 with
+        | (.ok ll, a) =>
+          (.ok ((kid, { typ := lit% "link", name := s.name, materials := s.materials, products := s.products }) :: ll), a)
+        | (.err e, a) => (.err e, a)
+        | (.panic e, a) => (.panic e, a)
+
+/-- `VerifySublayouts` over all steps, in layout order -/
+def resolveSteps (rec : Md → List (Str × Key) → Dir → Str → Acc → Result) (lay : TVal) (dir : Dir) :
+    List (Step × List (Str × Md)) → Acc → Outcome (List (Step × List (Str × LinkView))) × Acc
+  | [], acc => (.ok [], acc)
+  | (st, links) :: rest, acc =>
+    match resolveLinks rec lay dir st.name links acc with
+    | (.err e, a) => (.err e, a)
+    | (.panic e, a) => (.panic e, a)
+    | (.ok ll, a) =>
+      match resolveSteps rec lay dir rest a with
+      | (.ok l, a2) => (.ok ((st, ll) :: l), a2)
+      | (.err e, a2) => (.err e, a2)
+      | (.panic e, a2) => (.panic e, a2)
+
 def verifyAux (W : World) (lineNorm : Bool) (callerInters : List Str) :
     Nat → Md → List (Str × Key) → Dir → Str → List (Str × Str) → RunDirState → Acc → Result
   | 0, _, _, _, _, _, _, acc => { out := .err "nesting-too-deep", ran := acc.ran, fs := acc.fs }
@@ -476,34 +523,7 @@ def verifyAux (W : World) (lineNorm : Bool) (callerInters : List Str) :
     | .ok ver =>
     -- VerifySublayouts: every counted piece of evidence that is a layout is verified recursively
     let resolved : Outcome (List (Step × List (Str × LinkView))) × Acc :=
-      ver.foldl (fun (st : Outcome (List (Step × List (Str × LinkView))) × Acc) sv =>
-        match st.1 with
-        | .ok l =>
-          let r : Outcome (List (Str × LinkView)) × Acc :=
-            sv.2.foldl (fun (s2 : Outcome (List (Str × LinkView)) × Acc) kv =>
-              match s2.1 with
-              | .ok ll =>
-                match kv.2.payload with
-                | .link _ =>
-                  match linkViewOf kv.2.payload with
-                  | some lv => (.ok (ll ++ [(kv.1, lv)]), s2.2)
-                  | none => (.err "invalid-metadata", s2.2)
-                | .layout _ =>
-                  let subKeys : List (Str × Key) := [(kv.1, (lookup kv.1 (layoutKeys lay)).getD Key.zero)]
-                  let subDir := dir.sub (sv.1.name ++ '.' :: first8 kv.1)
-                  let res := verifyAux W lineNorm callerInters fuel kv.2 subKeys subDir sv.1.name [] .none s2.2
-                  match res.out with
-                  | .ok s =>
-                    (.ok (ll ++ [(kv.1, { typ := lit% "link", name := s.name, materials := s.materials, products := s.products })]),
-                      { ran := res.ran, fs := res.fs })
-                  | .err e => (.err e, { ran := res.ran, fs := res.fs })
-                  | .panic e => (.panic e, { ran := res.ran, fs := res.fs })
-              | _ => s2) (.ok [], st.2)
-          match r.1 with
-          | .ok ll => (.ok (l ++ [(sv.1, ll)]), r.2)
-          | .err e => (.err e, r.2)
-          | .panic e => (.panic e, r.2)
-        | _ => st) (.ok [], acc)
+      resolveSteps (fun md ks d sn a => verifyAux W lineNorm callerInters fuel md ks d sn [] .none a) lay dir ver acc
     let acc1 := resolved.2
     let fail1 (o : Outcome Summary) : Result := { out := o, ran := acc1.ran, fs := acc1.fs }
     match resolved.1 with
